@@ -688,6 +688,11 @@ def _linear(ck, prog):
             "build_hydropathy_plot": "linearDistOfHydropathy"}
     api = {"NCPR": "build_NCPR_plot", "FCR": "build_FCR_plot", "Sigma": "build_sigma_plot", "Hydropathy": "build_hydropathy_plot"}
     blp = prog.fn(PLT, "__build_linear_plot")
+    # the bars keep the geometry they were drawn with: colour, edge width and labels may be touched up afterwards, height and position may not
+    for cl in ast.walk(blp.node):
+        if isinstance(cl, ast.Call) and isinstance(cl.func, ast.Attribute) and cl.func.attr in ("set_height", "set_y", "set_x", "set_width", "set_xy", "set_bounds"):
+            ck.ob("PROV-sink", blp.mod.relpath + ":" + blp.qual, False, expected="one bar per residue with the height of the corresponding profile value", found=unparse(cl)[:70],
+                  slot="bar-geometry:%s" % cl.func.attr, where=blp.loc(cl), note="a bar whose height is changed after plt.bar no longer shows the profile value")
     profiles = {SEQ + ":Sequence." + v for v in prof.values()}
     for b, be in prof.items():
         f = prog.fn(PLT, b)
